@@ -212,6 +212,9 @@ CASES = [
     ("C05", "validate_idempotent", S, "config.go", "Config) Validate", "if c.Producer.RequiredAcks != WaitForAll {", "if c.Producer.RequiredAcks == NoResponse {", "weaker acks requirement"),
     ("C05", "validate_idempotent", S, "config.go", "Config) Validate", "if !c.Version.IsAtLeast(V0_11_0_0) {\n\t\t\treturn ConfigurationError(\"Idempotent", "if !c.Version.IsAtLeast(V0_10_0_0) {\n\t\t\treturn ConfigurationError(\"Idempotent", "older version accepted"),
     ("C05", "validate_idempotent", H, "config.go", "Config) Validate", "if c.Net.MaxOpenRequests > 1 {", "if 1 < c.Net.MaxOpenRequests {", "mirrored comparison"),
+    ("C05", "clear_message", S, "async_producer.go", "ProducerMessage) clear", "\tm.hasSequence = false\n", "", "hasSequence not reset (seeded/C05-10)"),
+    ("C05", "clear_message", S, "async_producer.go", "ProducerMessage) clear", "m.retries = 0", "m.retries = 1", "changed constant"),
+    ("C05", "clear_message", H, "async_producer.go", "ProducerMessage) clear", "\tm.flags = 0\n\tm.retries = 0\n", "\tm.retries = 0\n\tm.flags = 0\n", "independent assignments reordered"),
     # ---------------------------------------------------------------- C06
     ("C06", "close_final_flush", S, "offset_manager.go", "offsetManager) Close", "attempt <= om.conf.Consumer.Offsets.Retry.Max", "attempt < om.conf.Consumer.Offsets.Retry.Max", "one attempt fewer"),
     ("C06", "close_final_flush", S, "offset_manager.go", "offsetManager) Close", "if om.releasePOMs(false) == 0 {", "if om.releasePOMs(false) != 0 {", "flipped comparison"),
